@@ -350,6 +350,27 @@ theorem impl_congr {f g : Builder → Builder} {r : Res Bytes} (h : Impl f r) (e
   have : g = f := funext e
   rw [this]; exact h
 
+theorem impl_alt (a : Alt) : Impl (altBuild a) (altSer a) := by
+  cases a with
+  | skip bs => exact impl_add bs
+  | copy bs => exact impl_add bs
+  | elem tag bs => exact impl_congr (impl_asn1 tag (impl_add bs)) (fun _ => rfl)
+  | any tag bs => exact impl_congr (impl_asn1 tag (impl_add bs)) (fun _ => rfl)
+  | anyElem tag bs => exact impl_congr (impl_asn1 tag (impl_add bs)) (fun _ => rfl)
+  | skipAsn1 tag bs => exact impl_congr (impl_asn1 tag (impl_add bs)) (fun _ => rfl)
+  | skipOpt tag bs => exact impl_congr (impl_asn1 tag (impl_add bs)) (fun _ => rfl)
+  | noSkipOpt tag => exact impl_id
+  | bitsBytes bs =>
+    have : Impl (fun c => add (add c [0]) bs) (.ok (0 :: bs)) := impl_comp (impl_add [0]) (impl_add bs)
+    exact impl_congr (impl_asn1 3 this) (fun _ => rfl)
+
+/-- `AddValue`: whatever `Marshal` does to the Builder, then the returned error is latched. -/
+theorem impl_value {f : Builder → Builder} {r : Res Bytes} (hf : Impl f r) (fail : Bool) :
+    Impl (fun b => addValue b f fail) (Res.append r (if fail then .err else .ok [])) := by
+  cases fail with
+  | true => exact impl_congr (impl_comp hf impl_err) (fun _ => rfl)
+  | false => exact impl_congr (impl_comp hf impl_id) (fun _ => rfl)
+
 theorem impl_build (p : Prog) : Impl (build p) (ser p) := by
   induction p with
   | done => exact impl_id
@@ -401,6 +422,9 @@ theorem impl_build (p : Prog) : Impl (build p) (ser p) := by
         simp only [hy, if_false, ZV.Time.CB.addGeneralizedTime]
         exact impl_asn1 0x18 (impl_add _)
       exact impl_congr (impl_comp this ih) (fun _ => rfl)
+  | alt a k ih => exact impl_congr (impl_comp (impl_alt a) ih) (fun _ => rfl)
+  | setErr k ih => exact impl_congr (impl_comp impl_err ih) (fun _ => rfl)
+  | value body fail k ihb ihk => exact impl_congr (impl_comp (impl_value ihb fail) ihk) (fun _ => rfl)
 
 theorem buildBytes_eq_ser (p : Prog) : buildBytes p = ser p := by
   have h := impl_build p
